@@ -100,11 +100,13 @@ PROPS["C08"] = {
 
 PROPS["C02"] = {
     "level": "proof",
-    "verus": [{"unit": "recognisers", "rlimit": 200}],
+    "verus": [{"unit": "recognisers", "rlimit": 200}, {"unit": "decoder", "rlimit": 300}],
     "kani": K_STRTAB + K_WS,
     "trusted_base": [T1, T2, T3, T4, T6, T8, VSTD, KANI, PERR,
-                     "UTF-8 prevalidation (simdutf8) in Read::new_in is T4; the fully-decoding entry points (parse_value*, serde visitors) are not under contract yet"],
-    "level_text": "Verus proof, for every input and length, that the validate-and-skip recogniser (skip_one, skip_array, skip_object, skip_string, skip_escaped_chars, skip_number, parse_literal, skip_space incl. its SIMD cache, parse_trailing) returns Ok iff the RFC 8259 grammar (specs/json_grammar.rs) matches, with the exact end offset; the table/lane contracts it assumes are discharged by Kani",
+                     "UTF-8 prevalidation (simdutf8) in Read::new_in is T4",
+                     "fully-decoding half: parse_value2/parse_array2/parse_object2 are proved; their leaves Parser::parse_number (wrapper around the verified sonic_number::parse_number) and parse_str (scanning half verified in unit strings) enter through assumed contracts; surrogate pairing / float finiteness make the decoder reject MORE than the grammar, which the statement permits",
+                     "the in-place twin parse_value/parse_array/parse_object (PaddedSliceRead, DOM whole-input path) and the serde SeqAccess/MapAccess machines are not under contract"],
+    "level_text": "Verus proof that the fully-decoding parser parse_value2/parse_array2/parse_object2 succeeds only on, and consumes exactly, the grammar it is specified to consume, that this grammar followed by the trailing check is exactly RFC 8259 (theorem_text_l_is_rfc8259), and — for every input and length — that the validate-and-skip recogniser (skip_one, skip_array, skip_object, skip_string, skip_escaped_chars, skip_number, parse_literal, skip_space incl. its SIMD cache, parse_trailing) returns Ok iff the RFC 8259 grammar (specs/json_grammar.rs) matches, with the exact end offset; the table/lane contracts it assumes are discharged by Kani",
     "level_note": "covers the validate-and-skip half of the statement through the checked reader `Read`; the serde visitor layer and the in-place DOM parser are outside (T1 for PaddedSliceRead)",
     "technique": TECH_VK,
     "explanation": "skip_one Ok <=> value_end(data, idx) is Some; parse_trailing Ok <=> only whitespace left",
@@ -215,12 +217,14 @@ PROPS["C18"] = {
 
 PROPS["C03"] = {
     "level": "proof",
-    "verus": [],
+    "verus": [{"unit": "decoder", "rlimit": 300}],
     "kani": K_META,
-    "trusted_base": [KANI, T4, "DocumentVisitor's arena copy (copy_nonoverlapping into bumpalo), the visitor event order and the public read API walk are NOT under contract",
-                     "string / number values delegate to C09 / C07"],
-    "level_text": "Kani/CBMC complete proofs of the packed node metadata the DOM is built from: kind/index/length round trips and totality of get_type for every packed value; the 29-bit index field is the known finding F5",
-    "level_note": "kernels of the DOM representation only; the tree-equality statement itself is not decided",
+    "trusted_base": [T1, T2, T6, T8, VSTD, KANI, T4, PERR,
+                     "DocumentVisitor itself (flattening into the thread-local node stack, arena copy with copy_nonoverlapping into bumpalo, back-pointer header) and the public read API walk are NOT under contract: what is proved is the event list the visitor is fed",
+                     "string / number payloads are uninterpreted here (decoded, num_event) and delegate to C09 / C07; Parser::parse_number and parse_str enter through assumed contracts",
+                     "the in-place driver (parse_value on PaddedSliceRead) is the textual twin of the verified parse_value2 but is not itself verified"],
+    "level_text": "Verus proof that the copy-out parse driver parse_value2/parse_array2/parse_object2 feeds the visitor exactly the reference pre-order event list of the text (value_events: same nesting, array order, members in source order with duplicates kept, exact element/member counts, booleans/null exact), for every input; plus Kani/CBMC complete proofs of the packed node metadata the DOM is built from: kind/index/length round trips and totality of get_type for every packed value; the 29-bit index field is the known finding F5",
+    "level_note": "event-list half + representation kernels; the arena construction between them is not decided",
     "technique": TECH_K,
     "explanation": "Meta::{pack_dom_node,unpack_dom_node,pack_static_str,get_type,unpack_root}",
 }
